@@ -67,23 +67,30 @@ fn c14_q_roots_return_with_sign() {
 fn umul_any<'a, 'b>(a: &'a BigUint, b: &'b BigUint) -> BigUint where 'a: 'a, 'b: 'b {
     if vc::digits(a).is_empty() || vc::digits(b).is_empty() { BigUint::ZERO } else { vc::mk_from(&vc::any_canon::<1>()) }
 }
-#[kani::proof]
-#[kani::unwind(34)]
-#[kani::stub(<&crate::biguint::BigUint as core::ops::Mul<&crate::biguint::BigUint>>::mul, umul_any)]
-#[kani::stub(core::arch::x86_64::_addcarry_u64, vc::stub_addcarry)]
-#[kani::stub(core::arch::x86_64::_subborrow_u64, vc::stub_subborrow)]
-#[kani::stub(crate::biguint::addition::schoolbook_add_assign_x86_64, vc::model_add)]
-#[kani::stub(crate::biguint::subtraction::schoolbook_sub_assign_x86_64, vc::model_sub)]
-fn c14_q_checked_never_none() {
-    let a0: [u64; 1] = vc::any_canon::<1>();
-    let b0: [u64; 1] = vc::any_canon::<1>();
-    let (na, nb): (bool, bool) = (kani::any(), kani::any());
-    let a = if na { mkint(true, &a0) } else { mkint(false, &a0) };
-    let b = if nb { mkint(true, &b0) } else { mkint(false, &b0) };
-    kani::assert(a.checked_add(&b).is_some() && a.checked_sub(&b).is_some() && a.checked_mul(&b).is_some(), "VERIF BigInt checked_add/sub/mul returned None");
-    let (ua, ub) = (vc::mk_from(&a0), vc::mk_from(&b0));
-    kani::assert(CheckedAdd::checked_add(&ua, &ub).is_some() && CheckedMul::checked_mul(&ua, &ub).is_some(), "VERIF BigUint checked_add/mul returned None");
+macro_rules! checked_never_none {
+    ($name:ident, $na:expr, $nb:expr) => {
+        #[kani::proof]
+        #[kani::unwind(34)]
+        #[kani::stub(<&crate::biguint::BigUint as core::ops::Mul<&crate::biguint::BigUint>>::mul, umul_any)]
+        #[kani::stub(alloc::vec::Vec::shrink_to_fit, vc::noop_shrink)]
+        #[kani::stub(core::arch::x86_64::_addcarry_u64, vc::stub_addcarry)]
+        #[kani::stub(core::arch::x86_64::_subborrow_u64, vc::stub_subborrow)]
+        #[kani::stub(crate::biguint::addition::schoolbook_add_assign_x86_64, vc::model_add)]
+        #[kani::stub(crate::biguint::subtraction::schoolbook_sub_assign_x86_64, vc::model_sub)]
+        fn $name() {
+            let a0: [u64; 1] = vc::any_canon::<1>();
+            let b0: [u64; 1] = vc::any_canon::<1>();
+            let a = mkint($na, &a0);
+            let b = mkint($nb, &b0);
+            kani::assert(a.checked_add(&b).is_some(), "VERIF BigInt::checked_add returned None");
+            kani::assert(a.checked_sub(&b).is_some(), "VERIF BigInt::checked_sub returned None");
+            kani::assert(a.checked_mul(&b).is_some(), "VERIF BigInt::checked_mul returned None");
+        }
+    };
 }
+checked_never_none!(c14_q_checked_never_none_pm, false, true);
+checked_never_none!(c14_q_checked_never_none_mm, true, true);
+checked_never_none!(c14_t_checked_never_none_pp, false, false);
 root_mp!(c14_q_root_sqrt_neg_mp, 0);
 root_mp!(c14_q_root_even_neg_mp, 1);
 root_mp!(c14_q_root_zeroth_mp, 2);
